@@ -1647,7 +1647,27 @@ func (x *Exec) callStatic(st *State, fr *Frame, resInstr ssa.Instruction, fn *ss
 		}
 	}
 	if x.rootC != nil && (x.rootC.Opaque[rn] || x.rootC.Opaque[fn.Name()]) {
-		return x.opaqueCall(st, fr, resInstr, rn, x.funcValue(fn, nil), "", args, fn.Signature.Results(), isDefer)
+		forks := x.opaqueCall(st, fr, resInstr, rn, x.funcValue(fn, nil), "", args, fn.Signature.Results(), isDefer)
+		// an opaque callee that has a contract of its own still writes what its `modifies` clause says
+		if c := x.contractOf(fn); c != nil && len(c.Modifies) > 0 && len(args) == len(fn.Params) && os.Getenv("GOVC_NO_OPAQUE_FRAME") == "" {
+			vars := map[string]Value{}
+			for i, p := range fn.Params {
+				vars[p.Name()] = args[i]
+			}
+			sc := &specCtx{x: x, st: st, vars: vars, pkg: fnPkg(fn), fn: fn, heap: st.heap, letExprs: letMap(c), noGhost: true, lets: map[string]Value{}}
+			func() {
+				defer func() {
+					if r := recover(); r != nil {
+						if _, ok := r.(poisonSignal); ok {
+							return
+						}
+						panic(r)
+					}
+				}()
+				x.havocItems(st, sc, c.Modifies)
+			}()
+		}
+		return forks
 	}
 	c := x.contractOf(fn)
 	if c != nil && !c.InlineAlways && !(fn == x.root && false) {
